@@ -245,4 +245,12 @@ theorem C20_roundtrip_any_order (t : LTree) (hb : binary t = true) (hn : t.leave
     ∃ u, treeFromTriples t.leaves trs = some u ∧ sameClades t u = true :=
   breakUp_roundtrip hb hn h
 
+/-- **The three statements that `C20.lean` keeps visible as `def`s, together.**
+    `C20_statement` (BUILD completeness ∧ AllTrees completeness ∧ the full
+    supertree clause) holds: nothing of the property is left stated-but-unproved.
+    (The docstring of `C20_statement` in `C20.lean`, "the one clause … stated
+    but not proved", predates this file: the supertree clause is `C20_supertree`
+    above.) -/
+theorem C20_full : C20_statement := ⟨C20_complete_one, C20_complete_all, C20_supertree⟩
+
 end SR.C20
